@@ -218,3 +218,127 @@ pub fn parse_hex_string(t: &str) -> String {
 pub fn parse_hex_bytes(t: &str) -> Vec<u8> {
     parse_hex_cps(t).into_iter().map(|c| c as u8).collect()
 }
+
+// ---------------------------------------------------------------------------------
+// canonical encodings of values, code maps and parse errors (shared by all families)
+
+use json_syntax::{object::Entry, NumberBuf, Object, Value};
+
+/// Token encoding of a value: `n t f #<hex> $<hex> [ v v ] { $k v $k v }`.
+pub fn enc_value(v: &Value, out: &mut String) {
+    match v {
+        Value::Null => out.push('n'),
+        Value::Boolean(true) => out.push('t'),
+        Value::Boolean(false) => out.push('f'),
+        Value::Number(n) => {
+            out.push('#');
+            out.push_str(&hex_str(n.as_str()));
+        }
+        Value::String(s) => {
+            out.push('$');
+            out.push_str(&hex_str(s.as_str()));
+        }
+        Value::Array(a) => {
+            out.push('[');
+            for x in a {
+                out.push(' ');
+                enc_value(x, out);
+            }
+            out.push_str(" ]");
+        }
+        Value::Object(o) => {
+            out.push('{');
+            for e in o.iter() {
+                out.push_str(" $");
+                out.push_str(&hex_str(e.key.as_str()));
+                out.push(' ');
+                enc_value(&e.value, out);
+            }
+            out.push_str(" }");
+        }
+    }
+}
+
+pub fn value_str(v: &Value) -> String {
+    let mut s = String::new();
+    enc_value(v, &mut s);
+    s
+}
+
+/// Inverse of `enc_value` over a token slice; returns the value and the tokens left.
+/// Numbers are built with `new_unchecked` when the spelling is not a valid number so
+/// that printer families can be exercised only on valid ones (callers generate valid ones).
+pub fn dec_value<'a>(t: &'a [&'a str]) -> (Value, &'a [&'a str]) {
+    let (h, mut r) = t.split_first().expect("value token");
+    match *h {
+        "n" => (Value::Null, r),
+        "t" => (Value::Boolean(true), r),
+        "f" => (Value::Boolean(false), r),
+        "[" => {
+            let mut items = vec![];
+            while r[0] != "]" {
+                let (v, r2) = dec_value(r);
+                items.push(v);
+                r = r2;
+            }
+            (Value::Array(items), &r[1..])
+        }
+        "{" => {
+            let mut entries = vec![];
+            while r[0] != "}" {
+                let k = parse_hex_string(&r[0][1..]);
+                let (v, r2) = dec_value(&r[1..]);
+                entries.push(Entry::new(k.as_str().into(), v));
+                r = r2;
+            }
+            (Value::Object(Object::from_vec(entries)), &r[1..])
+        }
+        x if x.starts_with('#') => {
+            let s = parse_hex_string(&x[1..]);
+            let n = NumberBuf::new(s.clone().into_bytes().into())
+                .unwrap_or_else(|_| panic!("invalid number {s}"));
+            (Value::Number(n), r)
+        }
+        x if x.starts_with('$') => (Value::String(parse_hex_string(&x[1..]).as_str().into()), r),
+        other => panic!("bad value token {other}"),
+    }
+}
+
+pub fn codemap_str(cm: &json_syntax::CodeMap) -> String {
+    let mut s = String::new();
+    for (i, e) in cm.iter() {
+        if i > 0 {
+            s.push(' ');
+        }
+        s.push_str(&format!("{}-{}-{}", e.span.start(), e.span.end(), e.volume));
+    }
+    if s.is_empty() {
+        s.push('-');
+    }
+    s
+}
+
+pub fn error_str<E>(e: &json_syntax::parse::Error<E>) -> String {
+    use json_syntax::parse::Error::*;
+    match e {
+        Stream(p, _) => format!("ST {p}"),
+        Unexpected(p, None) => format!("U {p} -"),
+        Unexpected(p, Some(c)) => format!("U {p} {:x}", *c as u32),
+        InvalidUnicodeCodePoint(s, c) => format!("IC {} {} {:x}", s.start(), s.end(), c),
+        MissingLowSurrogate(s, h) => format!("ML {} {} {:x}", s.start(), s.end(), h),
+        InvalidLowSurrogate(s, h, c) => format!("IL {} {} {:x} {:x}", s.start(), s.end(), h, c),
+        InvalidUtf8(p) => format!("IU {p}"),
+    }
+}
+
+/// Dismantles a value iteratively (the derived drop glue recurses).
+pub fn drop_deep(v: Value) {
+    let mut stack = vec![v];
+    while let Some(x) = stack.pop() {
+        match x {
+            Value::Array(a) => stack.extend(a),
+            Value::Object(o) => stack.extend(o.into_iter().map(|e| e.value)),
+            _ => (),
+        }
+    }
+}
